@@ -384,6 +384,73 @@ def run_config_tables(params, known):
     return dict(name=params['name'], evaluations=count, nontrivial_keys=sorted(keys), violations=violations, known=[], samples=[])
 
 
+def run_own_source(params, known):
+    '''Bundles whose source is this node cause no delivery, forwarding or report - for node IDs
+    written in mixed case, in lower case and in the ipn scheme: everything the node emits itself
+    (status reports about a received bundle, a bundle of a local application) is fed back to it
+    as if the network had returned it.'''
+    from .c05 import impl_container
+    violations = []
+    kinds = set()
+    count = 0
+    keys = set()
+    T0 = 700000000000
+
+    def viol(kind, detail, case):
+        if kind in kinds:
+            return
+        kinds.add(kind)
+        v = Violation(PROP, 'router', kind, dict(), '%r: %s' % (case, detail)).as_dict()
+        v['case'] = case
+        violations.append(v)
+    rq = B.FLAG_REQ_RECEPTION | B.FLAG_REQ_FORWARD | B.FLAG_REQ_DELIVERY | B.FLAG_REQ_DELETION
+    for node in ('dtn://Node-A/', 'dtn://node-b/', 'dtn://NODE.Example.ORG/', 'ipn:5.0'):
+        local = 'ipn:5.7' if node.startswith('ipn') else node + 'svc'
+        for table in ('deliver-first', 'forward-first'):
+            count += 1
+            case = dict(node_id=node, table=table)
+            rx = [('^' + re.escape(node[:-1 if node.startswith('dtn') else -2]) + '.*', 'deliver'), ('.*', 'forward')]
+            if table == 'forward-first':
+                rx.reverse()
+            world = BpWorld(dict(node_id=node, rx_routes=rx, tx_routes=TX_ROUTES))
+            first = dict(primary=dict(flags=rq, crc_type=1, dest=local, src='dtn://src/', report_to='dtn://rpt/', ts=(T0, 1), lifetime=3600000),
+                         blocks=[dict(type=1, num=1, flags=0, crc_type=1, data=b'hello')])
+            world.receive(B.encode(first))
+            world.quiesce()
+            own = impl_container(dict(primary=dict(flags=rq, crc_type=1, dest='dtn://far/x', src=node, report_to='dtn://rpt/', ts=(T0, 2), lifetime=3600000),
+                                      blocks=[dict(type=1, num=1, flags=0, crc_type=1, data=b'own')]))
+            world.send(own)
+            world.quiesce()
+            emitted = list(world.sent())
+            if world.escaped or world.api_errors:
+                esc = (world.escaped or world.api_errors)[-1]
+                viol('exception-escaped', '%s: %s' % (esc[0], esc[2] if world.escaped else esc[1]), case)
+                continue
+            if not emitted:
+                viol('scenario-emits-nothing', 'no report and no bundle left the node', case)
+                continue
+            # what the node originated itself: the administrative records it generated and the application bundle
+            # (a forwarded copy of the first bundle, under the forward-first table, is not the node's own)
+            mine = []
+            for octets in emitted:
+                dec = B.decode(octets)
+                if dec['primary']['flags'] & B.FLAG_ADMIN or dec['primary']['ts'] == (T0, 2):
+                    mine.append(octets)
+                    if dec['primary']['src'] != node:
+                        viol('emitted-bundle-names-another-source', 'source %r, the node is %r' % (dec['primary']['src'], node), case)
+            (n_dlv, n_sent) = (len(world.probe.seen), len(world.sent()))
+            for octets in mine:
+                world.receive(octets)
+                world.quiesce()
+            emitted = mine
+            keys.add('%s/%s/%d' % (node, table, len(emitted)))
+            if len(world.probe.seen) != n_dlv or len(world.sent()) != n_sent:
+                new = [B.decode(o)['primary'] for o in world.sent()[n_sent:]]
+                viol('own-bundle-processed-when-it-came-back', 'returned %d own bundles: %d new deliveries, new transmissions %r'
+                     % (len(emitted), len(world.probe.seen) - n_dlv, [(p['src'], p['dest'], hex(p['flags'])) for p in new]), case)
+    return dict(name=params['name'], evaluations=count, nontrivial_keys=sorted(keys), violations=violations, known=[], samples=[])
+
+
 def run_long_history(params, known):
     '''A delivered and a forwarded bundle, then N other bundles, then the two again: acted on once
     whatever N (the identity memory does not forget while the agent runs).'''
@@ -453,6 +520,7 @@ def scenarios(tier):
             out.append(dict(name='twins/%s/first-%s' % (table, MENU[first][0]), kind='graph',
                             params=dict(table=table, max_depth=depth + 1, first=first, menu=TWINS), dev_bound=0, use_snapshot=False,
                             liveness=False, max_states=500000, weight=1))
+    out.append(dict(name='own-source', kind='enum', runner='run_own_source', params=dict(name='own-source'), weight=3))
     out.append(dict(name='long-history', kind='enum', runner='run_long_history', params=dict(name='long-history'), weight=3))
     for part in range(4):
         name = 'config-tables-%d/4' % (part + 1)
@@ -486,6 +554,7 @@ ASSUMPTIONS = [
     'twins scenarios: histories of at most 4 (quick) / 5 (thorough) fragments of three look-alike fragmented bundles (same source; same time and the next sequence number; a millisecond later), under two tables',
     'a delivered bundle carries its own application data (for a reassembled one: the octets of its own fragments)',
     'configuration file: every receive table of up to 3 entries over 4 usable + 4 unusable entries (670 documents with the transmit tables of up to 3 over 2 + 2), read by the JSON-subset stand-in for PyYAML; five destinations routed through each',
+    'own source: node IDs in mixed case, lower case, with dots and in the ipn scheme; the reports and the application bundle the node emitted are fed back to it',
     'long histories: 0, 1, 255, 256, 257, 300 and 1100 other bundles between the first copies of a delivered and a forwarded bundle and their repeats',
     'routing patterns are matched with re.match (anchored at the start) as the configuration loader compiles them',
     'a bundle addressed to the node\'s own administrative endpoint is delivered whatever the table says',
